@@ -734,6 +734,21 @@ class Effects:
                 if not isinstance(sub, ast.Call):
                     continue
                 fn = sub.func
+                # numpy in-place forms:  np.round(x, out=self._volumes)   np.copyto(self._volumes, ...)   np.put(self._volumes, ...)
+                dests = [k.value for k in sub.keywords if k.arg == "out"]
+                if isinstance(fn, (ast.Attribute, ast.Name)) and (fn.attr if isinstance(fn, ast.Attribute) else fn.id) in ("copyto", "put", "place", "putmask", "put_along_axis", "fill_diagonal") and sub.args:
+                    dests.append(sub.args[0])
+                if isinstance(fn, ast.Attribute) and fn.attr == "at" and sub.args:  # ufunc.at(target, ...)
+                    dests.append(sub.args[0])
+                for dst in dests:
+                    for dd in (dst.elts if isinstance(dst, (ast.Tuple, ast.List)) else [dst]):
+                        dchain = attr_root_chain(dd)
+                        for attr, kind in self.WRITE_ATTRS.items():
+                            if attr in dchain[1:]:
+                                out.add(Effect(kind, "out="))
+                        al_ = self.tracked_aliases(fv)
+                        if dchain and dchain[0] in al_ and isinstance(_store_root(dd), ast.Name):
+                            out.add(Effect(al_[dchain[0]], "out="))
                 if isinstance(fn, ast.Attribute):
                     chain = attr_root_chain(fn.value)
                     # in-place mutation through a method:  x._history.append(...)
